@@ -61,6 +61,15 @@ Theorem reject_reason_sound : forall extra t args kw,
 Proof. exact reject_reason_sound_l. Qed.
 Print Assumptions reject_reason_sound.
 
+(* the positional-count failure is only raised for calls without keyword
+   arguments, and the count it reports as given is the number of positional values *)
+Theorem positional_given : forall extra t args kw r a g,
+  wf t = true -> kw_distinct kw = true ->
+  fst (parse_args extra (flatten [] t) args kw) = RPositional r a g ->
+  kw = [] /\ g = length args.
+Proof. exact positional_given_l. Qed.
+Print Assumptions positional_given.
+
 (* with extra-argument checking disabled no call is rejected - for ANY list of
    parameter definitions, well-formed or not *)
 Theorem no_reject_when_off : forall ps args kw,
